@@ -121,11 +121,13 @@ class Ctx:
             "violations": len(self.violations),
         }
         if not self.replay and not os.environ.get('VERIF_EVIDENCE_SUPPRESS'):
-            os.makedirs(EVIDENCE, exist_ok=True)
-            tmp = os.path.join(EVIDENCE, self.pid + ".json.tmp")
+            # checks beyond the given property list (X..: spec growth, DESIGN section 13) report under evidence/extra/
+            evdir = EVIDENCE if not self.pid.startswith("X") else os.path.join(EVIDENCE, "extra")
+            os.makedirs(evdir, exist_ok=True)
+            tmp = os.path.join(evdir, self.pid + ".json.tmp")
             with open(tmp, "w") as f:
                 json.dump(ev, f, indent=1)
-            os.replace(tmp, os.path.join(EVIDENCE, self.pid + ".json"))
+            os.replace(tmp, os.path.join(evdir, self.pid + ".json"))
         for fid, what in self.known_fired:
             print("KNOWN-FINDING: property=%s %s" % (self.pid, what), flush=True)
         for what, path in self.violations:
